@@ -17,7 +17,7 @@ func init() { checks["C07"] = c07 }
 func c07(args []string) {
 	c := chk.New("C07", "exploration", args)
 	c.Build(false)
-	c.Rule("(a) mixed-cores contention workloads (max in {2,3,4,6}, multisets of task classes with cores in 1..max) with yields of up to 3 ms at slots.before_lock / slots.deposit / slots.release so that token-by-token acquisitions of different tasks interleave whenever the lock does not prevent it: must terminate (structural hang classifier, never elapsed time); (a2) the same with outputs of waiting tasks appearing on disk while they wait (written by sibling tasks): must terminate with every slot given back (shadow counter 0) and every task either run or skipped; (b) rendezvous groups: k tasks with k*cores <= max and nothing else ready must all be inside their command at the same time (each announces itself and waits for k announcements; completion is the witness; on expiry the hook event log decides: a waiter blocked in the slot acquisition although free >= needed is a violation, anything else inconclusive); (c) CoresPerTask > max must be refused by the library (exit != 0 with its own message, no command of that process), a Go-runtime deadlock report is not a refusal. distinct_nontrivial = distinct (max, cores multiset, interleaving signature) of contention runs in which >= 2 tasks overlapped their acquisitions' waiting, plus completed rendezvous groups and refusals")
+	c.Rule("(a) mixed-cores contention workloads (max in {2,3,4,6}, multisets of task classes with cores in 1..max) with yields of up to 3 ms at slots.before_lock / slots.deposit / slots.release so that token-by-token acquisitions of different tasks interleave whenever the lock does not prevent it: must terminate (structural hang classifier, never elapsed time); (a2) the same with outputs of waiting tasks appearing on disk while they wait (written by sibling tasks): must terminate with every slot given back (shadow counter 0) and every task either run or skipped; (b) rendezvous groups: k tasks with k*cores <= max and nothing else ready must all be inside their command at the same time (each announces itself and waits for k announcements; completion is the witness; on expiry the hook event log decides: a waiter blocked in the slot acquisition although free >= needed is a violation, anything else inconclusive); (b3) two workflows in one program: a task of X waiting for X's only slot must not keep Y's tasks from Y's free slots (one rendezvous group across both); (c) CoresPerTask > max must be refused by the library (exit != 0 with its own message, no command of that process), a Go-runtime deadlock report is not a refusal. distinct_nontrivial = distinct (max, cores multiset, interleaving signature) of contention runs in which >= 2 tasks overlapped their acquisitions' waiting, plus completed rendezvous groups and refusals")
 	c.Assume("head-of-line blocking behind a waiting multi-core task is legal: rendezvous groups are homogeneous and run with nothing else ready", "yields only make legal interleavings frequent (Go is preemptive)")
 	rng := c.Rand("c07")
 	type job struct {
@@ -118,6 +118,27 @@ func c07(args []string) {
 			jobs = append(jobs, &job{s: s, bh: bh, cfg: Cfg{Buf: 128, Procs: []int{1, 2, 8}[r%3], Sched: fmt.Sprintf("%d,500,1500", rng.Intn(1<<30))}, kind: "appear"})
 		}
 	}
+	// (b3) two workflows in one program: a task of workflow X that waits for X's only slot must not keep the tasks of
+	// workflow Y from taking Y's free slots. X's running task and Y's two tasks form one rendezvous group.
+	for r := 0; r < c.Pick(2, 6); r++ {
+		in, o1 := []spec.PortDecl{{Name: "in"}}, []spec.PortDecl{{Name: "out"}}
+		x := &spec.Spec{Name: "wfX", MaxTasks: 1, Sources: map[string]string{"x0.txt": "x0", "x1.txt": "x1", "y0.txt": "y0", "y1.txt": "y1"}}
+		// x0 reaches PX first (it takes X's only slot and joins the group), x1 40 ms later (it queues for the slot)
+		x.Procs = append(x.Procs, &spec.Proc{Name: "xs", Kind: spec.KFileSource, Files: []string{"x0.txt", "x1.txt"}}, &spec.Proc{Name: "xslow", Kind: spec.KRecorder, DelayMS: 40},
+			&spec.Proc{Name: "PX", Kind: spec.KCmd, Cores: 1, Cmd: spec.BuildCmd("PX", in, o1, nil, nil, nil)})
+		x.Conns = append(x.Conns, &spec.Conn{From: "xs.out", To: "xslow.in"}, &spec.Conn{From: "xslow.out", To: "PX.in"})
+		y := &spec.Spec{Name: "wfY", MaxTasks: 2, Sources: map[string]string{}}
+		y.Procs = append(y.Procs, &spec.Proc{Name: "ys", Kind: spec.KFileSource, Files: []string{"y0.txt", "y1.txt"}}, &spec.Proc{Name: "yslow", Kind: spec.KRecorder, DelayMS: 200},
+			&spec.Proc{Name: "PY", Kind: spec.KCmd, Cores: 1, Cmd: spec.BuildCmd("PY", in, o1, nil, nil, nil)})
+		y.Conns = append(y.Conns, &spec.Conn{From: "ys.out", To: "yslow.in"}, &spec.Conn{From: "yslow.out", To: "PY.in"})
+		x.Also = []*spec.Spec{y}
+		bh := vproto.Behaviours{
+			vproto.TaskKey("PX", []vproto.KV{{K: "in", V: "x0.txt"}}, nil, nil): {"rv": "3:g", "rvto": "8000"},
+			vproto.TaskKey("PX", []vproto.KV{{K: "in", V: "x1.txt"}}, nil, nil): {"sleep": "5"},
+			"PY": {"rv": "3:g", "rvto": "8000"},
+		}
+		jobs = append(jobs, &job{s: x, bh: bh, cfg: Cfg{Buf: 128, Procs: []int{2, 4, 8}[r%3]}, kind: "twowf", k: 3, cores: 1})
+	}
 	// (c) oversize cores
 	for _, max := range []int{1, 2, 4} {
 		for _, extra := range []int{1, 3} {
@@ -175,6 +196,56 @@ func c07(args []string) {
 			}
 			c.Count("oversize_refusals", 1)
 			c.Nontrivial("oversize|" + j.s.Name + fmt.Sprint(maxCores(j.s)))
+			return
+		case "twowf":
+			if res.Hang != "" {
+				if strings.HasPrefix(res.Hang, "deadlock") {
+					c.Violation("hang-"+res.Hang, "two workflows in one program did not terminate: "+res.Hang+"\n"+res.HangInfo, map[string]interface{}{"spec": j.s, "cfg": j.cfg})
+				} else {
+					c.Inconclusive("two workflows: " + res.Hang)
+				}
+				return
+			}
+			okc, to := 0, 0
+			var toT int64
+			for _, e := range ti.RVs {
+				if e.Note == "ok" {
+					okc++
+				} else {
+					to++
+					if toT == 0 || e.T < toT {
+						toT = e.T
+					}
+				}
+			}
+			if to > 0 {
+				// at the first expiry: tasks of PY that have begun but hold no slots, while no task of workflow Y holds one
+				begun, acquired := 0, 0
+				for _, e := range res.Events {
+					if e.T > toT {
+						break
+					}
+					if e.Who == "PY" && e.Pt == "task.begin" {
+						begun++
+					}
+					if e.Who == "PY" && e.Pt == "task.slots_acquired" {
+						acquired++
+					}
+				}
+				if begun == 2 && acquired == 0 {
+					c.Violation("not-work-conserving:across-workflows", fmt.Sprintf("both tasks of workflow Y had begun and none of Y's 2 slots was held, yet neither had acquired a slot when the first member of the group gave up waiting (a task of workflow X was waiting for X's only slot at the time)"),
+						map[string]interface{}{"spec": j.s, "cfg": j.cfg, "behav": j.bh})
+				} else {
+					c.Inconclusive(fmt.Sprintf("two workflows: rendezvous expired without a structural witness (begun=%d acquired=%d)", begun, acquired))
+				}
+				return
+			}
+			if res.Exit != 0 || okc != 3 {
+				c.Violation("rendezvous-run-failed", fmt.Sprintf("two workflows: exit=%d, %d of 3 rendezvous completions: %s", res.Exit, okc, tail(res.Output(), 400)), map[string]interface{}{"spec": j.s, "cfg": j.cfg})
+				return
+			}
+			c.Count("two_workflow_groups_met", 1)
+			c.Nontrivial(fmt.Sprintf("twowf|%v", j.cfg))
 			return
 		case "rendezvous":
 			if res.Hang != "" {
